@@ -36,7 +36,8 @@ Definition cls_SyntaxError : N := 5.      (* only for skeletons Python's compile
 
 Inductive matcher :=
   | MAny                       (* except:                 *)
-  | MCls (cs : list N).        (* except C: / except (C1, C2): *)
+  | MCls (cs : list N)         (* except C: / except (C1, C2): *)
+  | MVar (cs : list N) (k : N).   (* except HCk: / except (C1, HCk): — HCk is a global name that sw(k) rebinds *)
 
 Inductive stmt :=
   | STrace (n : N)                                   (* t(n) *)
@@ -53,7 +54,11 @@ Inductive stmt :=
   | STry (body : list stmt) (handlers : list (matcher * option N * list stmt)) (orelse finalbody : list stmt)
   | SWith (items : list N) (body : list stmt)        (* with M(k1), M(k2): *)
   | SAssert (k : N) (msg : option N)                 (* assert c(k) / assert c(k), ms(j) — ms(j) is a message site *)
-  | SFunc (k : N) (body : list stmt).                (* def g(): body ; fr(k, g())  — a function boundary *)
+  | SFunc (k : N) (body : list stmt)                 (* def g(): body ; fr(k, g())  — a function boundary *)
+  | SSwitch (k : N)                                  (* sw(k): rebinds the global class name HCk *)
+  | SWithS (k : N) (xbody body : list stmt).         (* with MSk(): body — a manager class written in the script whose
+                                                        __exit__ runs xbody as a function body (its returned value
+                                                        decides suppression) *)
 
 Definition handler : Type := (matcher * option N * list stmt)%type.
 
@@ -69,6 +74,7 @@ Fixpoint supp (inl : bool) (s : stmt) {struct s} : bool :=
       && forallb (supp inl) o && forallb (supp inl) f
   | SWith _ b => forallb (supp inl) b
   | SFunc _ b => forallb (supp false) b
+  | SWithS _ x b => forallb (supp false) x && forallb (supp inl) b
   | _ => true
   end.
 Definition supported (body : list stmt) : bool := forallb (supp false) body.
@@ -86,7 +92,8 @@ Inductive event :=
   | EvExit (k : N) (info : option exc)       (* __exit__ called with this exception information *)
   | EvP (k name : N) (v : option exc)        (* probe *)
   | EvRet (k : N) (v : option N)             (* value returned through function boundary k *)
-  | EvMsg (j : N).                           (* the message expression ms(j) of an assert was evaluated *)
+  | EvMsg (j : N)                            (* the message expression ms(j) of an assert was evaluated *)
+  | EvSw (k : N).                            (* sw(k) *)
 
 Inductive xres := XRet (b : bool) | XRaise (e : exc).       (* what __exit__ does *)
 
@@ -97,10 +104,12 @@ Record host (H : Type) := {
   h_enter : N -> H -> option exc * H;                       (* Some e: __enter__ raises e *)
   h_exit : N -> option exc -> H -> xres * H;
   h_msg : N -> H -> option exc * H;                         (* Some e: evaluating the assert message raises e *)
+  h_sw : N -> H -> H;                                       (* sw(k): the host rebinds HCk *)
+  h_hget : N -> H -> list N;                                (* the class(es) HCk is bound to now (reading has no effect) *)
   h_sub : N -> N -> bool                                    (* issubclass *)
 }.
 Arguments h_cond {H}. Arguments h_iter {H}. Arguments h_next {H}. Arguments h_enter {H}.
-Arguments h_exit {H}. Arguments h_msg {H}. Arguments h_sub {H}.
+Arguments h_exit {H}. Arguments h_msg {H}. Arguments h_sw {H}. Arguments h_hget {H}. Arguments h_sub {H}.
 
 Record deviations := {
   d8_else_drops_jump : bool;     (* D8: break/continue marker ignored in a loop's else clause *)
@@ -165,8 +174,14 @@ Section Exec.
     end.
 
   Definition is_exc (e : exc) : bool := h_sub h (x_cls e) cls_Exception.
-  Definition h_matches (m : matcher) (e : exc) : bool :=
-    match m with MAny => true | MCls cs => existsb (fun c => h_sub h (x_cls e) c) cs end.
+  (* the class expression of an except clause is evaluated when the clause is tried: a rebound name is seen *)
+  Definition h_matches (x : H) (m : matcher) (e : exc) : bool :=
+    match m with
+    | MAny => true
+    | MCls cs => existsb (fun c => h_sub h (x_cls e) c) cs
+    | MVar cs k => existsb (fun c => h_sub h (x_cls e) c) (cs ++ h_hget h k x)
+    end.
+  Definition truthy (v : option N) : bool := match v with Some n => negb (N.eqb n 0) | None => false end.
   Definition bind (name : option N) (e : exc) (st : state) : state :=
     match name with Some n => set_env (env_set n e (s_env st)) st | None => st end.
   (* Python: `name = None; del name` — never fails *)
@@ -246,6 +261,15 @@ Section Exec.
     | (st1, CFuel) => (st1, PFuel)
     end.
 
+  (* call_func(exit, "__exit__", manager, info...) of a script-defined manager: EvalFunc.call on the method body *)
+  Definition ps_xcall (ev : stmt -> state -> state * pres) (k : N) (info : option exc) (xbody : list stmt)
+             (st : state) : state * call_result :=
+    let env0 := s_env st in
+    match ps_func_block ev xbody (set_env [] (emit (EvExit k info) st)) with
+    | (st1, CFuel) => (st1, CFuel)
+    | (st1, r) => (set_env env0 st1, r)
+    end.
+
   Section WithCfg.
     Variable cfg : deviations.
 
@@ -266,7 +290,7 @@ Section Exec.
       match hs with
       | [] => (st, PX e)
       | (m, name, hb) :: r =>
-          if h_matches m e then
+          if h_matches (s_h st) m e then
             match ps_block evh hb (bind name e st) with
             | (st2, PFuel) => (st2, PFuel)
             | (st2, r2) =>
@@ -386,6 +410,34 @@ Section Exec.
       | m :: r => ps_with1 m (ps_with_nested ev r body) st
       end.
 
+    (* ast_with on one script-defined manager (flat and nested handling coincide for one item; its __enter__ only
+       logs): the body's outcome decides, as in [ps_with_finish], which __exit__ call is made; the method body runs
+       with the exception in flight as the one being handled (sys.exc_info) *)
+    Definition ps_withS (rec : option exc -> stmt -> state -> state * pres) (cur : option exc)
+               (k : N) (xbody body : list stmt) (st : state) : state * pres :=
+      match ps_block (rec cur) body (emit (EvEnter k) st) with
+      | (st3, PFuel) => (st3, PFuel)
+      | (st3, PX e) =>
+          if ps_caught e then
+            match ps_xcall (rec (Some e)) k (Some e) xbody st3 with
+            | (st4, CFuel) => (st4, PFuel)
+            | (st4, CExc e') => (st4, PX e')
+            | (st4, CRet v) => if truthy v then (st4, PV VNone) else (st4, PX e)
+            end
+          else
+            match ps_xcall (rec (Some e)) k None xbody st3 with
+            | (st4, CFuel) => (st4, PFuel)
+            | (st4, CExc e') => (st4, PX e')
+            | (st4, CRet _) => (st4, PX e)
+            end
+      | (st3, PV v) =>
+          match ps_xcall (rec cur) k None xbody st3 with
+          | (st4, CFuel) => (st4, PFuel)
+          | (st4, CExc e') => (st4, PX e')
+          | (st4, CRet _) => (st4, PV v)
+          end
+      end.
+
     (* one statement; [rec] is aeval at the lower fuel, [lf] the loop counter *)
     Definition ps_step (rec : option exc -> stmt -> state -> state * pres) (lf : nat)
                (cur : option exc) (s : stmt) (st : state) : state * pres :=
@@ -414,6 +466,8 @@ Section Exec.
           | (false, st1) => match assert_fail msg st1 with (st2, e) => (st2, PX e) end
           end
       | SFunc k b => ps_call (rec cur) k b st
+      | SSwitch k => (emit (EvSw k) (set_h (h_sw h k (s_h st)) st), PV VNone)
+      | SWithS k x b => ps_withS rec cur k x b st
       end.
 
     Fixpoint ps_stmt (fuel : nat) (cur : option exc) (s : stmt) (st : state) : state * pres :=
@@ -452,16 +506,16 @@ Section Exec.
         end
     end.
 
-  Fixpoint py_find_handler (e : exc) (hs : list handler) : option (option N * list stmt) :=
+  Fixpoint py_find_handler (x : H) (e : exc) (hs : list handler) : option (option N * list stmt) :=
     match hs with
     | [] => None
-    | (m, name, hb) :: r => if h_matches m e then Some (name, hb) else py_find_handler e r
+    | (m, name, hb) :: r => if h_matches x m e then Some (name, hb) else py_find_handler x e r
     end.
 
   (* the first handler whose class matches runs with the exception bound to its name; the name is unbound
      afterwards however the handler ends (reference 8.4: `try: body finally: name = None; del name`) *)
   Definition py_handle (ev : stmt -> state -> state * outcome) (e : exc) (hs : list handler) (st : state) : state * outcome :=
-    match py_find_handler e hs with
+    match py_find_handler (s_h st) e hs with
     | None => (st, Exc e)
     | Some (name, hb) =>
         match py_block ev hb (bind name e st) with
@@ -538,6 +592,37 @@ Section Exec.
         end
     end.
 
+  Definition py_xcall (ev : stmt -> state -> state * outcome) (k : N) (info : option exc) (xbody : list stmt)
+             (st : state) : state * call_result :=
+    let env0 := s_env st in
+    match py_block ev xbody (set_env [] (emit (EvExit k info) st)) with
+    | (st1, o) =>
+        match py_call_result o with
+        | CFuel => (st1, CFuel)
+        | r => (set_env env0 st1, r)
+        end
+    end.
+
+  (* reference 8.5 for a manager whose __exit__ is a script function: called with the exception (being handled
+     while it runs) or with None; a true result suppresses *)
+  Definition py_withS (rec : option exc -> stmt -> state -> state * outcome) (cur : option exc)
+             (k : N) (xbody body : list stmt) (st : state) : state * outcome :=
+    match py_block (rec cur) body (emit (EvEnter k) st) with
+    | (st3, Fuel) => (st3, Fuel)
+    | (st3, Exc e) =>
+        match py_xcall (rec (Some e)) k (Some e) xbody st3 with
+        | (st4, CFuel) => (st4, Fuel)
+        | (st4, CExc e') => (st4, Exc e')
+        | (st4, CRet v) => if truthy v then (st4, Normal) else (st4, Exc e)
+        end
+    | (st3, o) =>
+        match py_xcall (rec cur) k None xbody st3 with
+        | (st4, CFuel) => (st4, Fuel)
+        | (st4, CExc e') => (st4, Exc e')
+        | (st4, CRet _) => (st4, o)
+        end
+    end.
+
   Definition py_step (rec : option exc -> stmt -> state -> state * outcome) (lf : nat)
              (cur : option exc) (s : stmt) (st : state) : state * outcome :=
     match s with
@@ -564,6 +649,8 @@ Section Exec.
         | (false, st1) => match assert_fail msg st1 with (st2, e) => (st2, Exc e) end
         end
     | SFunc k b => py_call (rec cur) k b st
+    | SSwitch k => (emit (EvSw k) (set_h (h_sw h k (s_h st)) st), Normal)
+    | SWithS k x b => py_withS rec cur k x b st
     end.
 
   Fixpoint py_stmt (fuel : nat) (cur : option exc) (s : stmt) (st : state) : state * outcome :=
